@@ -44,7 +44,7 @@ func TestSmoke(t *testing.T) {
 	t.Log(resp.Stream)
 	t2 := time.Now()
 	w.Restore(s0)
-	t.Log("restore", time.Since(t2), len(s0.KVs))
+	t.Log("restore", time.Since(t2), s0.N)
 	br2 := w.RunBlockFn(time.Second, []TxFn{func(w *World) []byte { return w.MustSign(TxSpec{Msgs: []sdk.Msg{msg}}) }}, nil, nil)
 	if !bytes.Equal(br2.AppHash, h1) {
 		t.Fatalf("hash differs after restore %x %x", br2.AppHash, h1)
